@@ -64,6 +64,13 @@ def campaign(c):
     for src, n in progs:
         for k in range(0, n + 2):
             fault_run(c, src, k, n, 'every-offset')
+    # programs that emit no packet at all: the output is the 24-byte file header, and failing to write IT is a failure too
+    for src in (b'', b'# nothing\n', b'import eth;\n', b'import ipv4;\nlet f = ipv4::tcp::flow(1.2.3.4:5, 6.7.8.9:80);\nlet s = f.open();\n',
+                b'import time;\ntime::jump_seconds(3);\n', b'import text;\ntext::concat("discarded");\n'):
+        for flags in ((), ('-v',)):
+            for k in range(0, 26):
+                fault_run(c, src, k, 24, 'header-only' + (':' + ' '.join(flags) if flags else ''), flags)
+        c.count('header-only-programs')
     # the same enumeration under the other output-related command line options (-v prints every packet and goes through a
     # differently configured writer; --color only touches the diagnostics)
     for src, n in progs[:2 if c.quick else 12]:
